@@ -25,7 +25,7 @@ type Op struct {
 }
 
 type Case struct {
-	Mode     string `json:"mode"` // "calls", "volume", "tag"
+	Mode     string `json:"mode"` // "calls", "volume", "tag", "mix", "burst" (mix_test.go)
 	Dotu     bool   `json:"dotu"`
 	Msize    uint32 `json:"msize"`
 	Callers  [][]Op `json:"callers"`
@@ -37,7 +37,12 @@ type Case struct {
 	Volume   int    `json:"volume,omitempty"`   // mode volume: total number of calls
 	Perm     []int  `json:"perm,omitempty"`     // explicit answer order for the first batch (enumeration)
 	BigReads bool   `json:"bigreads,omitempty"` // every Read asks for msize-24 bytes (fills the receive buffer quickly)
-	Lag      bool   `json:"lag,omitempty"`      // tag mode: the consumer reads completions only after all replies were written
+	Lag      bool   `json:"lag,omitempty"`      // tag / mix mode: the consumer reads Tag completions only after all replies were written
+	Sources  []Src  `json:"sources,omitempty"`  // mode mix: Tags (pipelines) and ordinary callers
+	Script   []Step `json:"script,omitempty"`   // mode mix: order of issuing and answering
+	NTags    int    `json:"ntags,omitempty"`    // mode burst: Tags allocated and used at the same moment as the callers' calls
+	Rounds   int    `json:"rounds,omitempty"`   // mode burst: simultaneous calls per caller
+	Reps     int    `json:"reps,omitempty"`     // mode burst: number of fresh clients
 }
 
 const deadline = 20 * time.Second
@@ -131,6 +136,9 @@ func checkErr(c *Case, dotu bool, what string, err error, typ uint8, fid uint32,
 }
 
 func run(c *Case) error {
+	if c.Mode == "burst" {
+		return runBurst(c)
+	}
 	p := peer.New("c09", c.Msize, true)
 	p.Start(false)
 	clnt, err := go9p.Connect(p.Lib, c.Msize, c.Dotu)
@@ -144,8 +152,13 @@ func run(c *Case) error {
 	f := &fail{}
 	var pending int64 // calls issued and not yet returned (for gathering)
 	var done int64
+	// free tags right after Connect: the reference for "tags are recycled"
+	_, free0 := clnt.VerifCounts()
 	if c.Mode == "tag" {
 		return runTag(c, p, clnt)
+	}
+	if c.Mode == "mix" {
+		return runMix(c, p, clnt, free0)
 	}
 	// ---- peer goroutine
 	peerDone := make(chan struct{})
@@ -432,8 +445,8 @@ func run(c *Case) error {
 	if out != 0 {
 		return fmt.Errorf("%d requests still outstanding in the client after every call returned", out)
 	}
-	if free < 65535-17 {
-		return fmt.Errorf("only %d of 65535 tags are free after every call returned (at most 16 may be cached with request slots)", free)
+	if free < free0-16 {
+		return fmt.Errorf("only %d tags are free after every call returned, %d were free after Connect (at most 16 may be cached with request slots)", free, free0)
 	}
 	hx.Extra("max_gathered", maxOutstanding)
 	hx.ExtraAdd("batches_out_of_order", atomic.LoadInt64(&nontrivOOO))
@@ -569,7 +582,20 @@ func execute(test string, c *Case) error {
 	hx.Journal(test, c)
 	hx.Eval()
 	hx.Label(fmt.Sprintf("mode=%s dotu=%v chunks=%s", c.Mode, c.Dotu, c.Chunks))
-	hx.Label(fmt.Sprintf("callers=%s k=%d", bucket(len(c.Callers)), c.K))
+	switch c.Mode {
+	case "mix":
+		nt := 0
+		for _, s := range c.Sources {
+			if s.Tag {
+				nt++
+			}
+		}
+		hx.Label(fmt.Sprintf("mix tags=%d callers=%d lag=%v", nt, len(c.Sources)-nt, c.Lag))
+	case "burst":
+		hx.Label(fmt.Sprintf("burst callers=%s tags=%d rounds=%d", bucket(len(c.Callers)), c.NTags, c.Rounds))
+	default:
+		hx.Label(fmt.Sprintf("callers=%s k=%d", bucket(len(c.Callers)), c.K))
+	}
 	hx.Sample(test, c)
 	err := run(c)
 	if h, ok := err.(hangErr); ok {
